@@ -30,11 +30,19 @@ RULE = ('inputs: units s/ms/us x intervals {whole, decimal, known re-quantising 
         'event-related analyzer on 2-d data x 2-d event series whose rows differ in code sets / counts / placements (and through the C19 model: dtypes, '
         'argument forms, Events with data columns); volumes stored as int16 / uint8 / float32 and with scl_slope / scl_inter; HISTORIES of reader calls with '
         'non-default values of every option before the judged default call; non-default values of the analyzers\' optional arguments; '
+        'ROUND 2 (harness/c15_r2.py): failure histories on ONE analyzer object (reads that raise part-way: NaN / flat / inf / slow-AR channel, bad pair index, '
+        'refused filter design, refused set_input) followed by set_input and reads judged against fresh analyzers and the direct algorithm call, vars() snapshots; '
+        'seeds / inputs / event series / runs / coordinate arrays that are views of each other or the same object (row-strided, reversed, transposed-back, '
+        'Fortran, duplicated rows), in-place change of one object then re-inspection of the other; '
         'distinct = distinct protocol line; non-trivial = t0 != 0 or unit != s or re-quantising interval')
 ASSUMPTIONS = ['numpy/scipy routines called by the analyzers are taken as the algorithm layer (data fidelity is judged against direct calls of that layer)',
                'nibabel get_fdata() is the reference content of a NIfTI file',
                'picosecond magnitudes stay below 2^53 (intervals < 2.5 h) so int64->float64 conversions in the constructor are exact']
-TRUSTED_EXTRA = ['harness/translate_c15.py gen_reader_opts (AST extraction of the `<param>.get(key, literal)` sites and of module-level names written / read inside '
+TRUSTED_EXTRA = ['harness/translate_c15.py gen_analyzer_state (AST extraction of attribute stores on self outside __init__/set_input/reset, uses of the instance dict, '
+                 'writes into attribute-held objects, set_input overrides without reset, and memory-layout / identity probes in nitime/analysis/*.py and nitime/fmri/io.py '
+                 'into Generated/AnalyzerState.lean); BaseAnalyzer.reset() deletes exactly the OneTimeProperty entries of the instance dict (descriptors.py, C07\'s subject); '
+                 'the object model of Model/C15Obj.lean abstracts fit_model / the pairwise coherency to parameters `fit` / `pair` (their values are judged per run)',
+                 'harness/translate_c15.py gen_reader_opts (AST extraction of the `<param>.get(key, literal)` sites and of module-level names written / read inside '
                  'functions of nitime/fmri/io.py into Generated/ReaderOpts.lean); FilterAnalyzer.__init__ taken as the sink of the reader\'s options (its own fidelity is judged separately)',
                  'the event-related DATA cases of C15 run the C19 model (Model/C19.lean) and C19\'s independent oracle (planted truth / exact rational averages)',
                  'harness/translate_c15.py (AST extraction of TimeSeries(...) call sites into Generated/SeriesCalls.lean; of get_fdata() sites, module state '
